@@ -19,7 +19,9 @@ CONSTANTS MaxCalls,    \* bound on the length of a history
 
 VARIABLES reg, memo, icache, based, hist
 vars == <<reg, memo, icache, based, hist>>
-View == <<reg, memo, icache, based>>
+\* model checking with several workers: the depth is part of the view, so that the bound on the hidden history cuts
+\* the same states in every run; emission (one worker, strict BFS) identifies states across depths
+View == IF ("EMIT" \in DOMAIN IOEnv) /\ IOEnv.EMIT # "0" THEN <<reg, memo, icache, based>> ELSE <<<<reg, memo, icache, based>>, Len(hist)>>
 
 \* ---- the code's cached lookups: every operator returns [.., memo, icache] --------------------
 \* CheckCategoryUnit(category, unit)
